@@ -47,15 +47,20 @@ PROPS = {
                      "splitting loops terminate when no threshold equals an attained value. A seeded sample of the enumerated states (quick: 600 "
                      "grids, 200 refinement steps, all tetrahedral runs, 100 splits) is executed on the real code and compared exactly in integers up "
                      "to symmetry (weight per orbit / class, no orbit twice; image cells tile the zone for groups mapping cells to cells); seeded "
-                     "random calls, chains of 2 refinement steps and real 3-D run() executions with 2 adaptive iterations are recorded and every "
-                     "property clause of KMeshRec is evaluated on them by TLC.",
+                     "random calls, chains of 2 refinement steps and real 3-D run() executions with 2 adaptive iterations (hook events) are recorded "
+                     "and every property clause of KMeshRec is evaluated on them by TLC; for two worlds per tier (four in thorough, with and "
+                     "without symmetry) the run keeps its restart files and is followed by run(restart=True, restart_iteration=0) (going back: the "
+                     "K-list file holds points of later iterations) and restart_iteration=-1 (latest), one more adaptive iteration each: every K list "
+                     "at a StartRestart / UpdateIntegral / Refine event must have non-negative weights that sum to one exactly, no two equivalent "
+                     "live points, and live cells (with their images) that tile the zone (records `kstate` + FineGeo.images_tile).",
                 note="weights are compared as integers after verified rounding (units 1/Ntot, 1/(Ntot*prod(ndiv)^L), 1/WT; tolerance 1e-7, tetrahedra "
                      "1e-6); literal equality with today's lists (order, representative, vertex order, tie-break, split counters, exception classes, "
                      "rejection of grids the group does not map to themselves, thresholds reached) is information only (parts conformance_info, "
                      "records_info); thresholds of the tetrahedral loops never coincide with an attained value in the models that carry the claim: at "
                      "equality the loops of the code do not return, which is reported as observation_outside_C06 (termination is not part of C06); "
-                     "multi-level histories are covered by recorded chains / run() executions (2 levels), not by the exhaustive model (1 level); "
-                     "restarts and 1-D/2-D histories belong to C10-C12 (rungrid.py)",
+                     "multi-level histories and restart histories (classes restart_going_back / restart_latest, required non-empty) are covered by "
+                     "recorded chains / run() executions (2-3 levels) validated clause by clause by TLC, not by an exhaustive model (1 level); "
+                     "crash points, stored results and 1-D/2-D restart histories belong to C10-C12 (rungrid.py)",
                 ref="DESIGN.md 3.2"),
 }
 
@@ -827,23 +832,32 @@ def record_calls(rep, rng, thorough, usable, tag, recs):
         recs.append(refine_record(grp, geo, sym, l1, o2, l2, "chain"))
         rep.case(("rec-chain", grp, n, per, ndiv, sym, tuple(o1), tuple(o2)))
         nch += 1
-    # ---- real run() in 3-D with two adaptive iterations, observed through the hook events of run_grid.py
+    # ---- real run() in 3-D with two adaptive iterations, observed through the hook events of run_grid.py; for the first
+    #      worlds followed by restarts from the stored iteration 0 (going back: the K-list file holds points of later
+    #      iterations) and from the latest one.  Every K list seen at a StartFresh / StartRestart / UpdateIntegral / Refine
+    #      event must be what C06 demands of any K list ("kstate" records + image tiling); every refinement step is a
+    #      "refine" record.  The restart histories are a replay-only history class (not enumerated by a TLC model).
     nrun = 0
+    hist_counts = dict(fresh=0, restart_going_back=0, restart_latest=0, kstates=0, image_tiling=0)
     wd = workdir(tag + "_run")
-    for grp, n, ndiv in [("cub_Oh", (2, 2, 2), 2), ("ort_mM2", (2, 1, 2), 2), ("tet_C4v", (2, 2, 1), 2), ("bcc_Oh", (2, 2, 2), 2),
-                         ("hex_D3d", (1, 1, 2), 3), ("rho_D3d", (1, 1, 1), 3), ("ort_C1", (1, 2, 1), 2), ("fcc_Oh", (1, 1, 1), 2)][:8 if thorough else 4]:
+    worlds = [("cub_Oh", (2, 2, 2), 2), ("ort_mM2", (2, 1, 2), 2), ("tet_C4v", (2, 2, 1), 2), ("bcc_Oh", (2, 2, 2), 2),
+              ("hex_D3d", (1, 1, 2), 3), ("rho_D3d", (1, 1, 1), 3), ("ort_C1", (1, 2, 1), 2), ("fcc_Oh", (1, 1, 1), 2)][:8 if thorough else 4]
+    ident = [((1, 0, 0), (0, 1, 0), (0, 0, 1))]
+    for iw, (grp, n, ndiv) in enumerate(worlds):
         if grp not in usable or "run() in 3-D" in W.SKIPPED:
             continue
+        restarts = (0, -1) if (iw < 2 or (thorough and iw < 4)) else ()
         mats = W.mats_of(grp)
-        if not W.compatible(n, mats) or not W.compatible(W.FineGeo(n, (ndiv,) * 3, 2).U, mats):
+        if not W.compatible(n, mats) or not W.compatible(W.FineGeo(n, (ndiv,) * 3, 3 if restarts else 2).U, mats):
             raise MachineryError(f"run() world {grp} {n} {ndiv} is not compatible")
         for sym in ([True, False] if nrun < 2 or thorough else [True]):
             adpt_fac = rng.choice([1, 2])
-            info = dict(group=grp, NKdiv=n, adpt_mesh=ndiv, use_irred_kpt=sym, adpt_num_iter=2, adpt_fac=adpt_fac)
+            info = dict(group=grp, NKdiv=n, adpt_mesh=ndiv, use_irred_kpt=sym, adpt_num_iter=2, adpt_fac=adpt_fac,
+                        then=[f"run(restart=True, restart_iteration={i}, adpt_num_iter=1)" for i in restarts])
             d = os.path.join(wd, f"{grp}_{int(sym)}")
             os.makedirs(d, exist_ok=True)
             try:
-                good, steps = guarded(rep, "run", info, W.run_refinement, grp, n, ndiv, sym, 2, adpt_fac, seed(), d)
+                good, res = guarded(rep, "run", info, W.run_refinement, grp, n, ndiv, sym, 2, adpt_fac, seed(), d, restarts)
             except W.PrivateGone as ex:
                 W.SKIPPED["run() in 3-D"] = str(ex)[:300]
                 break
@@ -852,14 +866,33 @@ def record_calls(rep, rng, thorough, usable, tag, recs):
                 continue
             if not good:
                 continue
-            if len(steps) != 2 or any(not s["ord"] for s in steps):
-                raise MachineryError(f"run() world {info}: expected two refinement steps, got {[(len(s['before']), s['ord']) for s in steps]}")
-            geo = W.FineGeo(n, (ndiv,) * 3, 2)
+            geo, steps, states = res
+            nsteps = {h: sum(1 for s in steps if s["hist"] == h and s["ord"]) for h in ["fresh"] + [f"restart:{i}" for i in restarts]}
+            if nsteps["fresh"] != 2 or any(v != 1 for h, v in nsteps.items() if h != "fresh"):
+                raise MachineryError(f"run() world {info}: expected two refinement steps and one per restart, got {nsteps}")
             for s in steps:
-                recs.append(refine_record(grp, geo, sym, s["before"], s["ord"], s["after"], "run"))
-            rep.case(("rec-run", grp, n, ndiv, sym, adpt_fac))
+                recs.append(refine_record(grp, geo, sym, s["before"], s["ord"], s["after"], "run" if s["hist"] == "fresh" else "run_restart"))
+            gm = mats if sym else ident
+            for stt in states:
+                cls = {"fresh": "fresh", "restart:0": "restart_going_back", "restart:-1": "restart_latest"}[stt["hist"]]
+                hist_counts[cls] += 1
+                hist_counts["kstates"] += 1
+                if cls != "fresh" or stt["event"] == "Refine":      # (the other lists of a fresh run are the `before` lists of its refine records)
+                    recs.append(dict(fn="kstate", grp=grp, n=list(geo.n), nd=list(geo.nd), L=geo.L, sym=sym, kl=[pl(p) for p in stt["kl"]],
+                                     source=f"{cls}:{stt['event']}"))
+                # the live cells (and their images) tile the zone: refined-away parents are dead while their children live
+                if W.box_preserving(gm):
+                    hist_counts["image_tiling"] += 1
+                    why = geo.images_tile(stt["kl"], gm)
+                    if why:
+                        rep.violation(f"run:{cls}:image_cells_do_not_tile", dict(info, history=stt["hist"], event=stt["event"], why=why, K_list=stt["kl"][:60],
+                                                                                  sum_of_weights=sum(p[2] for p in stt["kl"]), one=geo.WOne))
+            rep.case(("rec-run", grp, n, ndiv, sym, adpt_fac, restarts))
             nrun += 1
     shutil.rmtree(wd, ignore_errors=True)
+    if "run() in 3-D" not in W.SKIPPED:
+        vacuity(rep, "run() histories", hist_counts, ["fresh", "restart_going_back", "restart_latest", "image_tiling"])
+    rep.part("run_histories", **hist_counts)
     # ---- KpointBZtetra.divide (ndiv 2 and 3, refine / split, also called as run() calls it) on tetrahedra of real grids
     ntet = 0
     pools = {}
@@ -985,6 +1018,10 @@ def corrupted_records(recs):
     if r:
         r["after"][-1][4] += 1
         badrecs.append((r, "weight_kept"))
+    r = pick(lambda r: r["fn"] == "kstate" and len(r["kl"]) > 1)
+    if r:
+        r["kl"][-1][4] += 1
+        badrecs.append((r, "sum_to_one"))
     r = pick(lambda r: r["fn"] == "tsplit")
     if r:
         r["out"][0][1] += 1
@@ -1137,7 +1174,7 @@ def _check(rep, tier, tag):
     stv["generated"] -= 2 * len(badrecs)
     rep.add_tlc("c06_records", stv)
     rep.add_traces(len(recs))
-    fnname = dict(klist="Grid.get_K_list", divide="KpointBZparallel.divide", exclude="exclude_equiv_points", refine="refinement_step",
+    fnname = dict(klist="Grid.get_K_list", divide="KpointBZparallel.divide", exclude="exclude_equiv_points", refine="refinement_step", kstate="K_list",
                   tsplit="KpointBZtetra.divide", tgrid="GridTetra.__init__")
     outside = []
     rinfo = {}
@@ -1156,16 +1193,17 @@ def _check(rep, tier, tag):
             site, info, _ = fallback[i - nown]
             rep.violation(f"{site}:property_clauses_on_the_real_list", dict(info, record=r, failing_clauses=hard))
         else:
-            site = fnname[r["fn"]] + (":run" if r.get("source") == "run" else "")
+            src = str(r.get("source", ""))
+            site = fnname[r["fn"]] + (":run" if src.startswith("run") else "") + (":run:" + src.split(":")[0] if r["fn"] == "kstate" else "")
             rep.violation(f"{site}:recorded:{hard[0]}", dict(record=r, failing_clauses=hard))
     if outside and not rep.violations:
         raise MachineryError(f"recorded call outside the model: {outside[:3]} {str(recs[outside[0][0]])[:300]}")
     kinds = {}
     for r in recs[:nown]:
-        k_ = r["fn"] + (":" + r["source"] if "source" in r else "")
+        k_ = r["fn"] + (":" + r["source"].split(":")[0] if "source" in r else "")
         kinds[k_] = kinds.get(k_, 0) + 1
     if usable and "recorded calls (partly)" not in W.SKIPPED:
-        need = ["klist", "divide", "exclude", "refine:chain", "tsplit", "tgrid"] + ([] if "run() in 3-D" in W.SKIPPED else ["refine:run"])
+        need = ["klist", "divide", "exclude", "refine:chain", "tsplit", "tgrid"] + ([] if "run() in 3-D" in W.SKIPPED else ["refine:run", "refine:run_restart", "kstate:restart_going_back", "kstate:restart_latest"])
         vacuity(rep, "records", kinds, need)
     rep.part("records", **kinds, fallback_records=len(fallback))
     rep.part("records_info", **rinfo)
